@@ -20,7 +20,7 @@ RULE = ('strata: A = every grammatical token sequence over {(,),and,or,not,check
         'leaves numbered left to right, and again with only one or two distinct leaves repeated; three leaf families (role checks, attribute checks, attribute names that begin with the letters of a keyword); B = random ASTs (<= ~60 tokens, leaf reuse, constants) each in '
         'several lexical variants (keyword case, ASCII whitespace, glued parentheses, redundant groups); '
         'D = deeply nested legal expressions (1-40 chained not, alternating and/or/not towers of depth 2-25, within ~60 tokens); C = every list-of-lists shape (outer<=3, inner<=3) over {leaf, other leaf, @, !, bare string, '
-        'empty entry}; K = constant rules; every seventh sentence of A is parsed immediately after a malformed rule (lone operator, unbalanced parenthesis, dangling operator ...) in the same thread; F = slice of A/B carried through real JSON and YAML policy files. '
+        'empty entry}; K = constant rules; every seventh sentence of A is parsed immediately after a malformed rule (lone operator, unbalanced parenthesis, dangling operator ...) in the same thread; F = slice of A/B carried through real JSON and YAML policy files; O = two threads each load and decide a rule at the same time (second one runs at sampled line boundaries of the first, deterministic scheduler): results must be those of running them one after the other. '
         'Each case is decided under all 2^k role (or attribute) assignments. A case is non-trivial when its '
         'reference truth table is not constant; distinct = distinct rule value.')
 ASSUMPTIONS = [
@@ -35,7 +35,7 @@ LEVEL_TEXT = ('Every grammatical sentence up to 11 (thorough: 15) tokens and eve
 LEVEL_NOTE = ('trusted: the reference evaluator/recogniser in pv/gen/expr.py; leaf checks (role:, attribute) behave as '
               'C04/C05 state; only ASCII whitespace is generated')
 PLAN = {'quick': dict(shards=4, wall=60), 'thorough': dict(shards=16, wall=420)}
-MIN = {'deep_cases': 20, 'parsed_after_malformed_rule': 100, 'sentences_with_repeated_leaves': 500, 'evaluations': 200, 'decisions': 2000, 'allow_decisions': 100, 'deny_decisions': 100}
+MIN = {'overlapping_evaluations': 200, 'deep_cases': 20, 'parsed_after_malformed_rule': 100, 'sentences_with_repeated_leaves': 500, 'evaluations': 200, 'decisions': 2000, 'allow_decisions': 100, 'deny_decisions': 100}
 ANCHORS = ['oslo_policy.policy:Enforcer.enforce', 'oslo_policy._parser:parse_rule',
            'oslo_policy._parser:_parse_tokenize', 'oslo_policy._parser:_parse_list_rule',
            'oslo_policy._parser:ParseState._wrap_check', 'oslo_policy._parser:ParseState._make_and_expr',
@@ -48,6 +48,8 @@ REQUIRED_ANCHORS = ['oslo_policy.policy:Enforcer.enforce']
 
 BOUNDS = {'quick': dict(L=11, nB=400, nvar=8, file_every=20),
           'thorough': dict(L=15, nB=40000, nvar=10, file_every=20)}
+
+OVERLAPS = {'quick': 8, 'thorough': 150}        # pairs per shard
 
 KW_NAMES = ['org', 'android', 'notify', 'andy', 'oracle', 'nothing', 'Not_a', 'AND1', 'ORb', 'notes', 'order', 'andes']
 
@@ -70,6 +72,7 @@ class Real:
         self.policy = policy
         self.conf = env.fresh_conf()
         self.enf = policy.Enforcer(self.conf, use_conf=False)
+        self.enf2 = policy.Enforcer(env.fresh_conf(), use_conf=False)
 
     def table(self, value, k, family, via='dict', fmt='json', poison=None):
         """Decision for every truth assignment: list of bool / 'EXC:Type'.  `poison`: a malformed rule that is loaded
@@ -260,6 +263,54 @@ def deep_asts():
             yield d, ast, 5
 
 
+# -- two overlapping parse-and-decide operations -------------------------------
+def gen_overlap(ctx, i):
+    rnd = ctx.sub_rnd('O', ctx.tier, ctx.shard, i)
+    ops = []
+    for _ in range(2):
+        k = rnd.randint(1, 3)
+        ast = expr.random_ast(rnd, rnd.randint(1, 3), k)
+        while expr.size(ast) > 14:
+            ast = expr.random_ast(rnd, rnd.randint(1, 2), k)
+        fam = rnd.choice(['role', 'attr', 'kw'])
+        text = expr.spell(expr.to_tokens(ast, FAMILIES[fam][0]))
+        ops.append(dict(text=text, k=k, fam=fam, want=ref_table(ast, k)))
+    if rnd.random() < 0.3:
+        # one of the two is a malformed rule: it denies, and must not disturb the sentence parsed beside it
+        ops[rnd.randint(0, 1)] = dict(text=rnd.choice(POISON), k=1, fam='role', want=[False, False])
+    return dict(s='O', ops=ops, rseed='%s.%d.%d' % (ctx.tier, ctx.shard, i))
+
+
+def check_overlap(ctx, real, case):
+    """Two threads each load a rule text (own Rules object, own enforcer) and decide it under all assignments while the
+    other does the same with another text: parser and check classes must keep nothing shared between the two."""
+    from pv.mon import overlap
+    a, b = case['ops']
+
+    def mk(op, enf):
+        creds_of = FAMILIES[op['fam']][1]
+
+        def make():
+            def run_():
+                try:
+                    enf.set_rules(real.policy.Rules.from_dict({'p': op['text']}))
+                    return [bool(enf.enforce('p', {}, creds_of(t))) for t in expr.assignments(op['k'])]
+                except Exception as e:
+                    return 'EXC:' + type(e).__name__
+            return run_
+        return make
+    ctx.case(['O', a['text'], b['text']], True, 'O')
+    ok = overlap.pair(ctx, mk(a, real.enf), mk(b, real.enf2), case,
+                      {'rule_a': a['text'], 'rule_b': b['text'], 'expected': [a['want'], b['want']]},
+                      ctx.sub_rnd('Ob', case['rseed']), limit=100)
+    if ok:
+        # the sequential pair itself is also held against the reference
+        for op, enf in ((a, real.enf), (b, real.enf2)):
+            got = mk(op, enf)()()
+            if got != op['want']:
+                ctx.violation('decision-mismatch', case, {'rule': op['text'], 'expected': op['want'], 'observed': got})
+
+
 # -- workload -----------------------------------------------------------------
 def cases(ctx):
     b = BOUNDS[ctx.tier]
@@ -329,6 +380,16 @@ def run(ctx):
                 s['exhaustive'] = False
             break
         check_case(ctx, real, case)
+    # O: overlapping operations last (the line-level scheduler slows everything that runs after it is installed)
+    from pv.mon import sched
+    ctx.stratum('O', exhaustive=False)
+    try:
+        for i in range(OVERLAPS[ctx.tier]):
+            if ctx.expired():
+                break
+            check_overlap(ctx, real, gen_overlap(ctx, i))
+    finally:
+        sched.uninstall()
     for k, v in contracts.EVALS.items():
         ctx.count('contract_evals.' + k, v)
 
@@ -338,6 +399,8 @@ def replay(ctx, case):
     contracts.parse_rule_returns_check()
     real = Real()
     case = dict(case)
+    if case.get('s') == 'O':
+        return check_overlap(ctx, real, case)
     if case.get('s') == 'B' and 'text' in case:
         # re-decide exactly the failing variant
         ast = totuple(case['ast'])
